@@ -120,9 +120,9 @@ def enum_jobs(pid, tier):
         if tier == 'quick':
             out.append((k, 4, 10 ** 9, 1 if k == 'pool' else 5))
         else:
-            # depth 4 exhaustively and a bounded part of depth 5 (its subtrees in seed-dependent order)
+            # depth 4 and depth 5 exhaustively
             out.append((k, 4, 10 ** 9, 1 if k == 'pool' else 5))
-            out.append((k, 5, 10 ** 9 if k == 'pool' else 60000, 1 if k == 'pool' else 8))
+            out.append((k, 5, 10 ** 9, 1 if k == 'pool' else 14))
     return out
 
 
